@@ -48,7 +48,7 @@ def t3(rep, tier, seed):
 def run(rep, tier, seed):
     rep.level = "exploration"
     rep.assume("A1", "A2", "A4", "A5", "A6", "A8")
-    D.run_contracts(rep, "C01", D.PART_HEUR + D.exact() + D.CBLDM + D.heur() + D.cg16(tier), tier, with_lemmas=False, also=("C12",))
+    D.run_contracts(rep, "C01", D.PART_HEUR + D.MULTIFIT + D.exact() + D.CBLDM + D.heur() + D.cg16(tier), tier, with_lemmas=False, also=("C12",))
     D.run_static(rep, "C01", ("purity",))      # every per-call contract presupposes that results are functions of the arguments
     t3(rep, tier, seed)
     D.link_falsifier(rep)
